@@ -39,6 +39,24 @@ def main():
                 sys.stderr.write(out[-4000:])
                 raise SystemExit("harness build failed: " + b)
     step("harness binaries", harness)
+
+    def harness_variants():
+        # the other builds the quick checks use (built on demand otherwise; here so that the first quick run is fast)
+        from concurrent.futures import ThreadPoolExecutor
+        from vlib import layout_corr
+        jobs = [lambda: common.cargo_build_bin(ctx, "hist", release=True),
+                lambda: common.cargo_build_bin(ctx, "hist", features=("std", "serde", "stable_deref_trait", "unsize", "arc-swap", "zst")),
+                lambda: common.cargo_build_bin(ctx, "ovf", release=True),
+                lambda: common.cargo_build_bin(ctx, "ovf", features=("serde", "stable_deref_trait", "unsize", "arc-swap")),
+                lambda: common.cargo_build_bin(ctx, "ovf", features=("serde", "stable_deref_trait", "unsize", "arc-swap"), release=True),
+                lambda: layout_corr.build_variants(ctx, ["dbg", "rel-o0"])]
+        with ThreadPoolExecutor(max_workers=4) as ex:
+            for f in [ex.submit(j) for j in jobs]:
+                try:
+                    f.result()
+                except Exception as e:      # not fatal for setup: the check that needs it reports it
+                    sys.stderr.write("[setup] variant build: %s\n" % str(e)[-300:])
+    step("harness variants (release, zst, layout)", harness_variants)
     try:
         from vlib import miri
         step("miri sysroot + litmus build", lambda: miri.run_suite(ctx, ["clone_read_drop_2t"], [1]))
